@@ -44,6 +44,59 @@ def _bary_ok(terms, tri_pat, bc_pat):
     return all(match(tri_pat, t) is not None and match(bc_pat, bc) is not None for _, t, _, bc in terms)
 
 
+def uv_lookup_rules(cx):
+    """UvMapping::point / triangle / interior_barycentric (shared with C02: 'face id and barycentric location reproduce the same point')"""
+    UV = 'geom3::mesh::uv_mapping::UvMapping'
+    b = cx.fn(f'{UV}::point')
+    if b:
+        r = cx.retval(b)
+        e = match('(call OPoint::from $s)', r)
+        got = _bary_terms(e['s']) if e else None
+        ok = got is not None and _bary_ok(got, '(call TriMesh::triangle (field tri_map (param self)) (param tri_id))', '(param barycentric)')
+        cx.ob('EXPR', 'UvMapping::point', ok, 'uv point = a*bc[0] + b*bc[1] + c*bc[2] (any order of terms) on UV triangle tri_id', where=b.file)
+    b = cx.fn(f'{UV}::triangle')
+    if b:
+        r = cx.retval(b)
+        P = '(call TriMesh::project_local_point_and_get_location (field tri_map (param self)) (param point) _)'
+        TRI = f'(call TriMesh::triangle (field tri_map (param self)) (field 0 (field 1 {P})))'
+        e = find(f'(agg *Option::Some (0 (agg tuple (0 (field 0 (field 1 {P}))) (1 $bc))))', r)
+        okt = interior_handled = False
+        if e is not None:
+            bc = e[1]['bc']
+            alts = list(bc[1:]) if bc[0] == 'phi' else [bc]
+            loc = [a_ for a_ in alts if match(f'(unwrap (call TrianglePointLocation::barycentric_coordinates (field 1 (field 1 {P}))))', a_) is not None]
+            inter = [a_ for a_ in alts if match(f'(unwrap (call *interior_barycentric (field a {TRI}) (field b {TRI}) (field c {TRI}) (param point)))', a_) is not None]
+            okt = len(loc) == 1 and len(loc) + len(inter) == len(alts)
+            interior_handled = len(inter) == 1
+        cx.ob('EXPR', 'UvMapping::triangle', okt, 'the triangle id and the barycentric weights come from the same projection (weights of an interior location are computed on '
+              'that same triangle for that same point)', where=b.file, found=None if okt else r)
+        pj = b.calls('TriMesh::project_local_point_and_get_location')
+        cx.ob('EXPR', 'UvMapping::triangle:solid', len(pj) == 1 and cx.arg(pj[0], 2) == ('const', True) and match('(field tri_map (param self))', cx.arg(pj[0], 0)) is not None and okt and interior_handled,
+              'the UV lookup treats the 2D triangles as SOLID: with solid = false parry2d moves a point strictly inside a triangle onto the nearest triangle edge, '
+              'so an interior UV coordinate would come back as a point on an edge; and the interior location (which carries no barycentric coordinates in 2D) is given weights instead of being unwrapped',
+              where=b.file, found=cx.arg(pj[0], 2) if pj else None)
+    b = cx.fn('geom3::mesh::uv_mapping::interior_barycentric')
+    if b:
+        somes = [d for s_, d in cx.rets(b) if d[0] == 'agg' and d[1].endswith('Option::Some')]
+        e = match('(agg * (0 (agg array (0 $w0) (1 $w1) (2 $w2))))', somes[0]) if len(somes) == 1 else None
+        ok = e is not None
+        if ok:
+            V = lambda q, ax: ('field', ax, ('call', 'OPoint::sub', ('param', {'b': 2, 'c': 3, 'p': 4}[q], q), ('param', 1, 'a')))
+            at = {}
+            for q in 'bcp':
+                for ax in 'xy':
+                    f_ = find(f'(field {ax} (call OPoint::sub (param {q}) (param a)))', somes[0])
+                    at[(q, ax)] = f_[0] if f_ else None
+            ok = all(v is not None for v in at.values())
+            if ok:
+                w0, w1, w2 = e['w0'], e['w1'], e['w2']
+                ok = rat_equal(('add', ('add', w0, w1), w2), ('const', 1.0))
+                for ax in 'xy':
+                    ok = ok and rat_equal(('add', ('mul', w1, at[('b', ax)]), ('mul', w2, at[('c', ax)])), at[('p', ax)])
+        cx.ob('ALGEBRA', 'interior_barycentric', ok,
+              'the weights of an interior point sum to one and reproduce the point: w1 (b - a) + w2 (c - a) = p - a in both coordinates (order a, b, c as in UvMapping::point)', where=b.file)
+
+
 def uv_with_tol_rule(cx):
     """shared with C02 (the projection inside uv_with_tol must see the query once-transformed, like project_with_tol itself)"""
     b = cx.fn('geom3::mesh::Mesh::uv_with_tol')
@@ -63,8 +116,9 @@ def uv_with_tol_rule(cx):
 
 def run(cx):
     # the flattening consumes the edge tables of identify_edges: manifold guard, boundary-map entries, face_edges order (rule shared with C12)
-    from rules.C12 import identify_edges_rules
+    from rules.C12 import identify_edges_rules, boundary_loops_rules
     identify_edges_rules(cx)
+    boundary_loops_rules(cx)
     b = cx.fn('geom3::mesh::edges::MeshEdges::boundary_first_flatten')
     if b:
         GUARD = '(eq 1 (len (field boundary_loops (param self))))'
@@ -246,54 +300,7 @@ def run(cx):
         r = cx.retval(b)
         cx.ob('GUARD', 'UvMapping::new', match('(phi (agg *Result::Ok (0 (agg * (tri_map (unwrap (call TriMesh::new (param vertices) (param faces))))))) (residual _))', r) is not None,
               'an invalid UV triangulation is an error (TriMesh::new errors are propagated)', where=b.file, found=r)
-    b = cx.fn(f'{UV}::point')
-    if b:
-        r = cx.retval(b)
-        e = match('(call OPoint::from $s)', r)
-        got = _bary_terms(e['s']) if e else None
-        ok = got is not None and _bary_ok(got, '(call TriMesh::triangle (field tri_map (param self)) (param tri_id))', '(param barycentric)')
-        cx.ob('EXPR', 'UvMapping::point', ok, 'uv point = a*bc[0] + b*bc[1] + c*bc[2] (any order of terms) on UV triangle tri_id', where=b.file)
-    b = cx.fn(f'{UV}::triangle')
-    if b:
-        r = cx.retval(b)
-        P = '(call TriMesh::project_local_point_and_get_location (field tri_map (param self)) (param point) _)'
-        TRI = f'(call TriMesh::triangle (field tri_map (param self)) (field 0 (field 1 {P})))'
-        e = find(f'(agg *Option::Some (0 (agg tuple (0 (field 0 (field 1 {P}))) (1 $bc))))', r)
-        okt = interior_handled = False
-        if e is not None:
-            bc = e[1]['bc']
-            alts = list(bc[1:]) if bc[0] == 'phi' else [bc]
-            loc = [a_ for a_ in alts if match(f'(unwrap (call TrianglePointLocation::barycentric_coordinates (field 1 (field 1 {P}))))', a_) is not None]
-            inter = [a_ for a_ in alts if match(f'(unwrap (call *interior_barycentric (field a {TRI}) (field b {TRI}) (field c {TRI}) (param point)))', a_) is not None]
-            okt = len(loc) == 1 and len(loc) + len(inter) == len(alts)
-            interior_handled = len(inter) == 1
-        cx.ob('EXPR', 'UvMapping::triangle', okt, 'the triangle id and the barycentric weights come from the same projection (weights of an interior location are computed on '
-              'that same triangle for that same point)', where=b.file, found=None if okt else r)
-        pj = b.calls('TriMesh::project_local_point_and_get_location')
-        cx.ob('EXPR', 'UvMapping::triangle:solid', len(pj) == 1 and cx.arg(pj[0], 2) == ('const', True) and match('(field tri_map (param self))', cx.arg(pj[0], 0)) is not None and okt and interior_handled,
-              'the UV lookup treats the 2D triangles as SOLID: with solid = false parry2d moves a point strictly inside a triangle onto the nearest triangle edge, '
-              'so an interior UV coordinate would come back as a point on an edge; and the interior location (which carries no barycentric coordinates in 2D) is given weights instead of being unwrapped',
-              where=b.file, found=cx.arg(pj[0], 2) if pj else None)
-    b = cx.fn('geom3::mesh::uv_mapping::interior_barycentric')
-    if b:
-        somes = [d for s_, d in cx.rets(b) if d[0] == 'agg' and d[1].endswith('Option::Some')]
-        e = match('(agg * (0 (agg array (0 $w0) (1 $w1) (2 $w2))))', somes[0]) if len(somes) == 1 else None
-        ok = e is not None
-        if ok:
-            V = lambda q, ax: ('field', ax, ('call', 'OPoint::sub', ('param', {'b': 2, 'c': 3, 'p': 4}[q], q), ('param', 1, 'a')))
-            at = {}
-            for q in 'bcp':
-                for ax in 'xy':
-                    f_ = find(f'(field {ax} (call OPoint::sub (param {q}) (param a)))', somes[0])
-                    at[(q, ax)] = f_[0] if f_ else None
-            ok = all(v is not None for v in at.values())
-            if ok:
-                w0, w1, w2 = e['w0'], e['w1'], e['w2']
-                ok = rat_equal(('add', ('add', w0, w1), w2), ('const', 1.0))
-                for ax in 'xy':
-                    ok = ok and rat_equal(('add', ('mul', w1, at[('b', ax)]), ('mul', w2, at[('c', ax)])), at[('p', ax)])
-        cx.ob('ALGEBRA', 'interior_barycentric', ok,
-              'the weights of an interior point sum to one and reproduce the point: w1 (b - a) + w2 (c - a) = p - a in both coordinates (order a, b, c as in UvMapping::point)', where=b.file)
+    uv_lookup_rules(cx)
     b = cx.fn('geom3::mesh::Mesh::uv_to_3d')
     if b:
         r = cx.retval(b)
